@@ -7,6 +7,7 @@ import (
 	"time"
 	stdUnicode "unicode"
 
+	"golang.org/x/text/encoding"
 	"golang.org/x/text/encoding/unicode"
 )
 
@@ -79,7 +80,10 @@ type (
 	stringD1 string
 )
 
-var utf16Encoder = unicode.UTF16(unicode.BigEndian, unicode.IgnoreBOM).NewEncoder() // ucs2 is utf16 actually
+// ucs2 is utf16 actually. Encoder is stateful so it must not be shared between goroutines.
+func utf16Encoder() *encoding.Encoder {
+	return unicode.UTF16(unicode.BigEndian, unicode.IgnoreBOM).NewEncoder()
+}
 
 // volumeDescriptorHeader represents the data in bytes 0-6
 // of a Volume Descriptor as defined in ECMA-119 8.1
@@ -352,7 +356,7 @@ func mangleStrA(in string, joliet bool) stringA {
 	}, in)
 
 	if joliet {
-		ret, _ = utf16Encoder.String(ret)
+		ret, _ = utf16Encoder().String(ret)
 	}
 
 	return stringA(ret)
@@ -374,7 +378,7 @@ func mangleStrD(in string, joliet bool) stringD {
 	}, in)
 
 	if joliet {
-		ret, _ = utf16Encoder.String(ret)
+		ret, _ = utf16Encoder().String(ret)
 	}
 
 	return stringD(ret)
@@ -392,7 +396,7 @@ func mangleStrD1(in string, joliet bool) stringD1 {
 	}, in)
 
 	if joliet {
-		ret, _ = utf16Encoder.String(ret)
+		ret, _ = utf16Encoder().String(ret)
 	}
 
 	return stringD1(ret)
